@@ -283,10 +283,11 @@ theorem InvG.mono {st : St} (h : InvG EO st) : InvG EO' st :=
 end
 
 /-- the shape of an object layer that `get_object_layer_env` and `find_object_field_thunk` rely on:
-    a field without an environment of its own, or an assert, needs the base environment of the layer;
+    a field with an expression but without an environment of its own, or an assert, needs the base
+    environment of the layer;
     a field without thunk has an expression -/
 structure LayerShape (layer : Layer) : Prop where
-  fieldBase : ∀ f ∈ layer.fields, f.baseEnv = none → layer.baseEnv.isSome = true
+  fieldBase : ∀ f ∈ layer.fields, f.baseEnv = none → f.expr.isSome = true → layer.baseEnv.isSome = true
   assertBase : layer.asserts ≠ [] → layer.baseEnv.isSome = true
   fieldExpr : ∀ f ∈ layer.fields, f.thunk = none → f.expr.isSome = true
 
@@ -334,7 +335,8 @@ theorem S.of_eq {a b : St} (he : b.envs = a.envs) (hf : b.funcs = a.funcs) (ho :
 def Good : Err → Prop
   | .internal m => m ≠ "variable not found" ∧ m ≠ "get_object on an environment without object" ∧
       m ≠ "get_top_object on an environment without object" ∧ m ≠ "env data not set" ∧
-      m ≠ "bad layer index" ∧ m ≠ "layer without base env" ∧ m ≠ "field without expression"
+      m ≠ "bad layer index" ∧ m ≠ "layer without base env" ∧ m ≠ "field without expression" ∧
+      m ≠ "visible field without thunk"
   | _ => True
 
 /-- the error is not a (modelled) Rust panic -/
